@@ -64,6 +64,19 @@ def model_circuits():
     yield "dollar-inside-plain-identifiers", build({"a$1": ("input", []), "b": ("input", []), "n$x": ("nand", ["a$1", "b"]), "o$": ("xor", ["n$x", "a$1"])}, outputs=["o$", "n$x"], name="dollar"), []
     yield "escaped-identifiers-with-a-plain-body", build({"\\en": ("input", []), "en": ("input", []), "\\sum": ("xor", ["\\en", "en"]), "o": ("nand", ["\\sum", "en"])}, outputs=["o", "\\sum"], name="escplain"), []
     yield "escaped-identifiers", build({"\\a[0]": ("input", []), "\\b.x": ("input", []), "\\n$1": ("nand", ["\\a[0]", "\\b.x"]), "o": ("not", ["\\n$1"])}, outputs=["o", "\\n$1"], name="esc"), []
+    # an escaped instance name (its pins are written through the instance, under their own names)
+    yield "escaped-instance-name", build({"a": ("input", []), "ck": ("input", []), "\\i[0].clk": ("bb_input", ["ck"]), "\\i[0].d": ("bb_input", ["a"]), "\\i[0].q": ("bb_output", []), "\\i[0].qn": ("bb_output", []),
+                                          "o": ("buf", ["\\i[0].q"])}, outputs=["o"], name="escinst", blackboxes={"\\i[0]": ff}), [ff]
+    # module names that are not made of word characters only: `$` in a plain name, an escaped name
+    yield "module-name-with-a-dollar", build({"a": ("input", []), "y": ("not", ["a"])}, outputs=["y"], name="top$1"), []
+    yield "escaped-module-name", build({"a": ("input", []), "b": ("input", []), "y": ("nor", ["a", "b"])}, outputs=["y"], name="\\top.1"), []
+    # escaped net names in which a keyword follows a character that is not a word character
+    yield "escaped-net-names-ending-in-endmodule", build({"a": ("input", []), "\\q-endmodule": ("not", ["a"]), "\\endmodule": ("buf", ["\\q-endmodule"]), "\\x[module": ("and", ["a", "\\endmodule"])},
+                                                          outputs=["\\q-endmodule", "\\x[module"], name="esckw"), []
+    # no ports at all: a constant feeding a blackbox pin; and a blackbox type without pins
+    yield "no-ports", build({"k": ("1", []), "u0.clk": ("bb_input", ["k"]), "u0.d": ("bb_input", ["k"]), "u0.q": ("bb_output", []), "u0.qn": ("bb_output", [])}, outputs=[], name="noports", blackboxes={"u0": ff}), [ff]
+    nop = RefBlackBox("nop", [], [])
+    yield "blackbox-type-without-pins", build({"a": ("input", []), "y": ("buf", ["a"])}, outputs=["y"], name="nopins", blackboxes={"u0": nop}), [nop]
     yield "output-is-input-and-gate-mix", build({"a": ("input", []), "b": ("input", []), "c": ("input", []), "n": ("nor", ["a", "b", "c"]), "x": ("xnor", ["n", "a"]), "y": ("buf", ["x"]), "i": ("not", ["y"])},
                                                 outputs=["a", "i", "n"], name="mix"), []
 
@@ -311,7 +324,9 @@ def run(chk):
                                       # the explicit format wins over a known extension (documented: "overrides the extension")
                                       (f"/mem/{c.name}.bench", "verilog", "verilog", False),
                                       # the file is not named after the module: from_file(path) infers the module and must keep *its* name
-                                      (f"/mem/saved_copy_of_it.v", "verilog", None, False), (f"/mem/dir.d/{c.name}_2.v", "verilog", None, True)):
+                                      (f"/mem/saved_copy_of_it.v", "verilog", None, False), (f"/mem/dir.d/{c.name}_2.v", "verilog", None, True),
+                                      # a file name that is not a word (it is tried as the module name first)
+                                      (f"/mem/x[1.v", "verilog", None, False), (f"/mem/a(b+.v", "verilog", None, True)):
             r = P.call(FILE, "to_file", c, path, wfmt, beh)
             n += 1
             key = f"file::{name}::{path.rsplit('/', 1)[1].replace(c.name, '<name>')}::{'assign' if beh else 'primitives'}"
